@@ -1,6 +1,62 @@
-import TornadoModel.C06.Spec
+import TornadoModel.C06.Refine
+/-!
+C06 — property theorems: HTTP header maps behave as a case-insensitive insertion-ordered multimap.
+Only property theorems and non-vacuity examples live here; helper lemmas are in `Lemmas`, `Norm`, `Refine`.
+`run empty ops` is the state/outputs of the implementation model after an arbitrary operation history,
+`Spec.run Spec.empty ops` the same history on the multimap specification (`Spec.lean`).
+-/
 namespace TornadoModel.C06
 
-theorem normalize_idem_stub : normalize (normalize []) = normalize [] := by decide
+/-- `_normalize_header` is idempotent: stored keys are fixed points. -/
+theorem normalize_idem (s : Str) : normalize (normalize s) = normalize s := Norm.normalize_idem s
+
+/-- the stored key depends only on the ASCII-lower-cased name -/
+theorem normalize_lower (s : Str) : normalize (s.map lowerC) = normalize s := Norm.normalize_lower s
+
+/-- **Case-insensitive keying**: two names address the same entry iff they are equal up to ASCII case. -/
+theorem normalize_eq_iff_lower_eq (a b : Str) :
+    normalize a = normalize b ↔ a.map lowerC = b.map lowerC := Norm.normalize_eq_iff_lower_eq a b
+
+/-- **Cache soundness, one step**: if every cached combined value equals the comma-join of the current value
+    list (and the state is related to some multimap), the same holds after any operation. -/
+theorem cache_sound_step (h : Headers) (m : Spec.M) (r : R h m) (op : Op) : CacheSound (step h op).1 :=
+  (step_refines r op).2.cache
+
+/-- **Cache soundness, every reachable state**: after any history, a cached combined value is never stale. -/
+theorem cache_sound_run (ops : List Op) : CacheSound (run empty ops).1 :=
+  (run_refines R_empty ops).2.cache
+
+/-- **Refinement**: for every operation history (add, set, delete, get, get_list, membership, iteration,
+    get_all, len, line parsing incl. continuation lines, serialisation) the implementation model produces
+    exactly the outputs of the insertion-ordered multimap keyed by lower-cased name — in particular reading a
+    name returns its values joined by commas (`Spec.get`). -/
+theorem refines_multimap (ops : List Op) : (run empty ops).2 = (Spec.run Spec.empty ops).2 :=
+  (run_refines R_empty ops).1
+
+/-- **Present ⇒ deletable**: in every reachable state, a name reported present can be deleted
+    (this is the clause the pre-fix code violated: `del` raised `KeyError` from the cache dict). -/
+theorem present_deletable (ops : List Op) (n : Str) :
+    contains (run empty ops).1 n = true → ∃ h', delItem (run empty ops).1 n = .ok h' := by
+  intro hc
+  unfold contains at hc
+  unfold delItem
+  simp [hc]
+
+/-- … and the deletion really removes it, in every reachable state. -/
+theorem deleted_absent (ops : List Op) (n : Str) (h' : Headers) :
+    delItem (run empty ops).1 n = .ok h' → contains h' n = false := by
+  unfold delItem
+  intro hd
+  simp only at hd
+  split at hd
+  · cases hd
+    simp [contains, dhas, dget_ddel_same]
+  · cases hd
+
+/-! non-vacuity: a reachable state with a multi-valued header whose cache entry was dropped -/
+example :
+    let ops := [Op.add [65] [49], Op.get [65], Op.add [97] [50]]
+    contains (run empty ops).1 [65] = true ∧ (run empty ops).1.cache = [] ∧
+      (step (run empty ops).1 (.del [65])).2 = .unit := by decide
 
 end TornadoModel.C06
